@@ -3,6 +3,7 @@ import math
 import struct
 
 OBLIGATION_MODULES = ["PyModeS.Properties.C20"]
+TIE_MODULES = ["PyModeS.Tie.AeroGen"]
 MAIN_THEOREM = "PyModeS.C20.* (inverse pairs, monotonicity, ordering over the reals)"
 RULE = ("(speed, altitude) grid [0.5,450] m/s x [-500,20000] m, Mach grid (0,1.3], scalar and numpy-array arguments, coordinate pairs incl. "
         "identical / antipodal / polar; every case compares numpy with the Lean Float instance and evaluates the property predicate; "
